@@ -225,10 +225,11 @@ def rgfa(draw, min_chroms=1, max_chroms=2, max_elements=5, max_ln=9, min_element
 # rendering
 
 
+_OVERLAPS = ["0M", "1M", "0M", "3M", "7M", "0M", "2M"]
 _TAG_ORDERS = [(0, 1, 2, 3), (3, 1, 2, 0), (1, 3, 0, 2), (2, 3, 1, 0), (0, 1, 2, 3), (3, 2, 1, 0)]
 
 
-def gfa_lines(g, with_seq=True, extra_tags=None, link_tags=None, tag_order=None):
+def gfa_lines(g, with_seq=True, extra_tags=None, link_tags=None, tag_order=None, overlap_seed=None):
     """S and L lines (lists of strings, no newline). extra_tags: id -> list of 'TAG:T:V' strings."""
     s_lines = []
     for k_, (n, d) in enumerate(g["nodes"].items()):
@@ -241,15 +242,17 @@ def gfa_lines(g, with_seq=True, extra_tags=None, link_tags=None, tag_order=None)
         s_lines.append("\t".join(["S", n, d["seq"] if with_seq else "*"] + tags))
     l_lines = []
     for i, (a, oa, b_, ob) in enumerate(g["links"]):
-        line = "L\t%s\t%s\t%s\t%s\t0M" % (a, oa, b_, ob)
+        # the overlap column is carried, never interpreted: a path's sequence is the concatenation of its segments
+        ov = "0M" if overlap_seed is None else _OVERLAPS[(overlap_seed + 3 * i) % len(_OVERLAPS)]
+        line = "L\t%s\t%s\t%s\t%s\t%s" % (a, oa, b_, ob, ov)
         if link_tags and i in link_tags:
             line += "\t" + "\t".join(link_tags[i])
         l_lines.append(line)
     return s_lines, l_lines
 
 
-def gfa_text(g, with_seq=True, extra_tags=None, order_seed=None, header=False, link_tags=None):
-    s_lines, l_lines = gfa_lines(g, with_seq, extra_tags, link_tags,
+def gfa_text(g, with_seq=True, extra_tags=None, order_seed=None, header=False, link_tags=None, overlap_seed=None):
+    s_lines, l_lines = gfa_lines(g, with_seq, extra_tags, link_tags, overlap_seed=overlap_seed,
                                  tag_order=(order_seed if (order_seed is not None and order_seed % 3 == 1) else None))
     lines = s_lines + l_lines
     if order_seed is not None and order_seed % 4 == 3:
